@@ -8,6 +8,26 @@ HERE = os.path.dirname(os.path.dirname(os.path.abspath(__file__)))
 TECH = "deterministic simulation with fault injection: "
 
 CHECKS = {
+    "C02": dict(
+        level="exploration",
+        text=("Seeded simulated histories of assignments (identical, equal-not-identical, NaN, "
+              "raising ==, numpy, None, rejected values, trait_set with several names, default "
+              "reads, constructor keywords) on a generated class with traits over 7 kinds x 3 "
+              "comparison modes and static, decorator and dynamic handlers of all three "
+              "mechanisms (arity 0-4, bound methods, priority, dispatch same/ui/new). The "
+              "simulator owns thread identity, the UI queue and dispatch='new' threads, so "
+              "deferred calls are delivered late, reordered and after unregistration; handler "
+              "exceptions are injected at the n-th invocation. Oracle over the recorded "
+              "history: per assignment and per handler registered at that moment exactly one "
+              "call iff the model says 'change', old/new identical to what was readable "
+              "before/after, no call otherwise, exceptions contained and routed exactly once, "
+              "every deferred call delivered exactly once after the last op. Sampling, not proof."),
+        note=("Simulated threads interleave only at op and callback boundaries (traits promises "
+              "nothing under data races); handler order is never asserted; where a comparison "
+              "raises only agreement between mechanisms is required."),
+        technique=TECH + "seeded assignment/registration/delivery histories with handler-fault "
+                         "injection under a simulated scheduler, checked against a change model",
+        design="4 (C02)"),
     "C04": dict(
         level="exploration",
         text=("Seeded simulated histories on a holder object with ten List/Dict/Set traits "
